@@ -19,10 +19,11 @@ LoggedPost(p) ==
   /\ files' = LFiles(p.files) /\ filesO' = LFiles(p.filesO) /\ proofs' = LProofs(p.proofs)
   /\ providers' = p.providers /\ collat' = p.collat
   /\ attest' = LForms(p.attest) /\ report' = LForms(p.report)
-  /\ bal' = p.bal /\ height' = p.height /\ par' = p.par
+  /\ bal' = p.bal /\ bal2' = p.bal2 /\ height' = p.height /\ par' = p.par
 Lbl(e) == [f \in (DOMAIN e) \ {"post", "x"} |-> e[f]]
 
 ObservedPay == [p \in Users |-> bal'[p] - bal[p]]
+ObservedPay2 == [p \in Users |-> bal2'[p] - bal2[p]]
 SpecAct(e) ==
   CASE e.a = "postfile"     -> PostFile(e.s, e.m, e.sz, e.mp)
     [] e.a = "deletefile"   -> DeleteFile(e.s, e.m, e.st)
@@ -35,7 +36,7 @@ SpecAct(e) ==
     [] e.a = "attest"       -> Attest(e.s, e.p, e.f)
     [] e.a = "reqreport"    -> ReqReport(e.s, e.p, e.f, e.names)
     [] e.a = "report"       -> Report(e.s, e.p, e.f)
-    [] e.a = "block"        -> Block(e.rel, ObservedPay)
+    [] e.a = "block"        -> Block(e.rel, ObservedPay, e.rel2, ObservedPay2)
 
 Report_(kind, name) == PrintT(<<kind, name, l>>)
 Chk(name, F) == IF F THEN TRUE ELSE Report_("VIOL", name)
@@ -45,7 +46,7 @@ NT(name, F) == IF F THEN Report_("NT", name) ELSE TRUE
 NT01 == last'.a = "postproof" /\ ~LGood
 NT01p == last'.a = "block" /\ \E p \in Users : bal'[p] > bal[p]
 NT02 == last'.a = "block" /\ last'.reward /\ \E x \in PairsOf(files) : x \notin missed' /\ ~Young(files[x[2]], height')
-NT03 == last'.a = "block" /\ last'.reward /\ last'.rel > 0 /\ AllListed # {}
+NT03 == last'.a = "block" /\ last'.reward /\ (last'.rel > 0 \/ last'.rel2 > 0) /\ AllListed # {}
 NT14 == last'.a \in {"attest", "report"} /\ (<<last'.p, last'.f>> \in DOMAIN attest \/ <<last'.p, last'.f>> \in DOMAIN report)
 NT14f == last'.a \in {"reqattest", "reqreport"} /\ last'.ok
 NT15 == last'.a \in {"initprovider", "shutdown"} /\ last'.ok
@@ -74,7 +75,7 @@ TReset == /\ E.a = "reset" /\ l' = l + 1
           /\ earned' = {} /\ ever' = {} /\ signers' = <<>> /\ missed' = {} /\ pwin' = <<>>
           /\ Chk("C15_Backed", C15_Backed')
 TInit == /\ l = 1 /\ files = <<>> /\ filesO = <<>> /\ proofs = <<>> /\ providers = <<>> /\ collat = <<>>
-         /\ attest = <<>> /\ report = <<>> /\ bal = <<>> /\ height = 0 /\ par = <<>>
+         /\ attest = <<>> /\ report = <<>> /\ bal = <<>> /\ bal2 = <<>> /\ height = 0 /\ par = <<>>
          /\ earned = {} /\ ever = {} /\ signers = <<>> /\ missed = {} /\ pwin = <<>>
          /\ last = [a |-> "init", ok |-> TRUE]
 TNext == l <= Len(Trace) /\ (TStep \/ TReset)
